@@ -120,46 +120,41 @@ theorem codeRawNeg_lt_inf (b sh : Nat) (hb53 : 2 ^ 53 ≤ b) (hb256 : b < 2 ^ 25
   have : (Be + 1022 - sh) * 2 ^ 52 ≤ 1277 * 2 ^ 52 := Nat.mul_le_mul_right _ hexp
   omega
 
-/-- **Negative-exponent scaling is within one ulp** whenever `2^(x/27) ≤ 16·num` (every mantissa for `x ≤ 134`, every mantissa `≥ 257` for `x ≤ 350`)
-and `x ≤ 350`, in the normal and in the subnormal range. -/
-theorem powerOfNegativeTen_close (num x : Nat) (hn0 : 0 < num) (hnx : 2 ^ (x / 27) ≤ 16 * num) (hn : num < 2 ^ 64)
-    (hx : x ≤ 350) :
+/-- **Negative-exponent scaling is within one ulp** whenever the big integer the pipeline ends with has at
+least 60 bits (`x ≤ 350`), in the normal and in the subnormal range. -/
+theorem powerOfNegativeTen_close_wide (num x b s : Nat) (hn0 : 0 < num) (hn : num < 2 ^ 64) (hx : x ≤ 350)
+    (hps0 : negScale num x = some (b, s)) (hb59 : 2 ^ 59 ≤ b) :
     ∃ p, powerOfNegativeTen num x = some p ∧ ulpDist p (nearestMag num (10 ^ x)) ≤ 1 := by
-  obtain ⟨b, S, k, hps, hk, hS, e1, e2⟩ := negScale_error num x hn (by omega)
+  obtain ⟨b', S, k, hps, hk, hS, e1, e2⟩ := negScale_error num x hn (by omega)
+  have hbb : b' = b ∧ x + 64 + S = s := by
+    rw [hps] at hps0
+    simpa using hps0
+  obtain ⟨hbe, _⟩ := hbb
+  subst hbe
   have hdiv : x / 27 ≤ 12 := by omega
   have hk13 : k ≤ 13 := by omega
-  have hlow := negScale_lower num x b _ hn hps
-  have hb256 := negScale_lt num x b _ hps
-  -- b ≥ 2^59
-  have hb59 : 2 ^ 59 ≤ b := by
-    have h2 : 2 ^ (x / 27 + 1) * 2 ^ 59 ≤ num * 2 ^ 64 := by
-      calc 2 ^ (x / 27 + 1) * 2 ^ 59 = 2 ^ (x / 27) * 2 ^ 60 := by rw [Nat.pow_succ]; ring
-        _ ≤ 16 * num * 2 ^ 60 := Nat.mul_le_mul_right _ hnx
-        _ = num * 2 ^ 64 := by rw [show (2 : Nat) ^ 64 = 16 * 2 ^ 60 by decide]; ring
-    have h4 : 2 ^ (x / 27 + 1) * 2 ^ 59 < 2 ^ (x / 27 + 1) * (b + 1) := by omega
-    have := Nat.lt_of_mul_lt_mul_left h4
-    omega
-  have hb0 : b ≠ 0 := by intro h; subst h; exact absurd hb59 (by decide)
-  obtain ⟨hlo, hhi⟩ := log2_bounds b hb0
-  have hbit59 : 59 ≤ Nat.log2 b := (Nat.le_log2 hb0).2 hb59
+  have hb256 := negScale_lt num x b' _ hps
+  have hb0 : b' ≠ 0 := by intro h; subst h; exact absurd hb59 (by decide)
+  obtain ⟨hlo, hhi⟩ := log2_bounds b' hb0
+  have hbit59 : 59 ≤ Nat.log2 b' := (Nat.le_log2 hb0).2 hb59
   have hD : 0 < 5 ^ x := Nat.pow_pos (by decide)
-  have hG32 : 32 ≤ 2 ^ (Nat.log2 b - 54) := by
+  have hG32 : 32 ≤ 2 ^ (Nat.log2 b' - 54) := by
     calc 32 = 2 ^ 5 := by decide
-      _ ≤ 2 ^ (Nat.log2 b - 54) := Nat.pow_le_pow_right (by decide) (by omega)
-  have hbG : b < 2 ^ 55 * 2 ^ (Nat.log2 b - 54) := by
-    rw [← Nat.pow_add, show 55 + (Nat.log2 b - 54) = Nat.log2 b + 1 by omega]; exact hhi
-  obtain ⟨q1, q2⟩ := quarter_of_error b (num * 2 ^ (64 + S)) (5 ^ x) k (2 ^ (Nat.log2 b - 54)) hD hk13 hG32 hbG e1 e2
+      _ ≤ 2 ^ (Nat.log2 b' - 54) := Nat.pow_le_pow_right (by decide) (by omega)
+  have hbG : b' < 2 ^ 55 * 2 ^ (Nat.log2 b' - 54) := by
+    rw [← Nat.pow_add, show 55 + (Nat.log2 b' - 54) = Nat.log2 b' + 1 by omega]; exact hhi
+  obtain ⟨q1, q2⟩ := quarter_of_error b' (num * 2 ^ (64 + S)) (5 ^ x) k (2 ^ (Nat.log2 b' - 54)) hD hk13 hG32 hbG e1 e2
   -- L = ⌊log₂(N/D)⌋
-  have hGb : 2 * 2 ^ (Nat.log2 b - 54) ≤ b := by
-    calc 2 * 2 ^ (Nat.log2 b - 54) = 2 ^ (Nat.log2 b - 54 + 1) := by rw [Nat.pow_succ]; ring
-      _ ≤ 2 ^ Nat.log2 b := Nat.pow_le_pow_right (by decide) (by omega)
-      _ ≤ b := hlo
+  have hGb : 2 * 2 ^ (Nat.log2 b' - 54) ≤ b' := by
+    calc 2 * 2 ^ (Nat.log2 b' - 54) = 2 ^ (Nat.log2 b' - 54 + 1) := by rw [Nat.pow_succ]; ring
+      _ ≤ 2 ^ Nat.log2 b' := Nat.pow_le_pow_right (by decide) (by omega)
+      _ ≤ b' := hlo
   generalize hN : num * 2 ^ (64 + S) = N at *
-  generalize hGd : 2 ^ (Nat.log2 b - 54) = G at *
+  generalize hGd : 2 ^ (Nat.log2 b' - 54) = G at *
   have hNlow : 2 ^ 58 * 5 ^ x ≤ N := by
-    have h1 : (b - G) * 5 ^ x ≤ N := by
+    have h1 : (b' - G) * 5 ^ x ≤ N := by
       rw [Nat.sub_mul]; omega
-    have h2 : 2 ^ 58 ≤ b - G := by
+    have h2 : 2 ^ 58 ≤ b' - G := by
       have : (2 : Nat) ^ 59 = 2 ^ 58 + 2 ^ 58 := by decide
       omega
     exact Nat.le_trans (Nat.mul_le_mul_right _ h2) h1
@@ -182,7 +177,7 @@ theorem powerOfNegativeTen_close (num x : Nat) (hn0 : 0 < num) (hnx : 2 ^ (x / 2
     have : 5 ^ x * 2 ^ (L + 1) ≤ 5 ^ x * 2 ^ 58 := Nat.mul_le_mul_left _ this
     rw [Nat.mul_comm (5 ^ x) (2 ^ 58)] at this
     omega
-  obtain ⟨c1, c2⟩ := raw_close_rat b (x + 64 + S) N (5 ^ x) L hD (Nat.le_trans (by decide) hb59)
+  obtain ⟨c1, c2⟩ := raw_close_rat b' (x + 64 + S) N (5 ^ x) L hD (Nat.le_trans (by decide) hb59)
     (by rw [hGd]; exact q1) (by rw [hGd]; exact q2) hL1 hL2
   -- the specification in the same units
   have hspec : nearestMag num (10 ^ x) = cap (ratRaw N (5 ^ x) (x + 64 + S) L) := by
@@ -193,13 +188,31 @@ theorem powerOfNegativeTen_close (num x : Nat) (hn0 : 0 < num) (hnx : 2 ^ (x / 2
       (by rw [hshx, hN]; exact hL1) (by rw [hshx, hN]; exact hL2)
     rw [hshx, hN] at this
     exact this
-  refine ⟨negFinish b (x + 64 + S), by simp [powerOfNegativeTen, hps], ?_⟩
-  have hb53 : 2 ^ 53 ≤ b := Nat.le_trans (by decide) hb59
-  rw [negFinish_eq b (x + 64 + S) hb53 hb256 (by omega), hspec]
-  have hcap : cap (codeRawNeg b (x + 64 + S)) = codeRawNeg b (x + 64 + S) := by
-    have := codeRawNeg_lt_inf b (x + 64 + S) hb53 hb256
+  refine ⟨negFinish b' (x + 64 + S), by simp [powerOfNegativeTen, hps], ?_⟩
+  have hb53 : 2 ^ 53 ≤ b' := Nat.le_trans (by decide) hb59
+  rw [negFinish_eq b' (x + 64 + S) hb53 hb256 (by omega), hspec]
+  have hcap : cap (codeRawNeg b' (x + 64 + S)) = codeRawNeg b' (x + 64 + S) := by
+    have := codeRawNeg_lt_inf b' (x + 64 + S) hb53 hb256
     unfold cap; simp [Nat.not_le.2 this]
   rw [← hcap]
   exact cap_close _ _ c2 c1
+
+
+/-- the same from a condition on the mantissa: `2^(x/27) ≤ 16·num` (every mantissa for `x ≤ 134`, every mantissa
+`≥ 257` for `x ≤ 350`) -/
+theorem powerOfNegativeTen_close (num x : Nat) (hn0 : 0 < num) (hnx : 2 ^ (x / 27) ≤ 16 * num) (hn : num < 2 ^ 64)
+    (hx : x ≤ 350) :
+    ∃ p, powerOfNegativeTen num x = some p ∧ ulpDist p (nearestMag num (10 ^ x)) ≤ 1 := by
+  obtain ⟨b, S, k, hps, _⟩ := negScale_error num x hn (by omega)
+  have hlow := negScale_lower num x b _ hn hps
+  have hb59 : 2 ^ 59 ≤ b := by
+    have h2 : 2 ^ (x / 27 + 1) * 2 ^ 59 ≤ num * 2 ^ 64 := by
+      calc 2 ^ (x / 27 + 1) * 2 ^ 59 = 2 ^ (x / 27) * 2 ^ 60 := by rw [Nat.pow_succ]; ring
+        _ ≤ 16 * num * 2 ^ 60 := Nat.mul_le_mul_right _ hnx
+        _ = num * 2 ^ 64 := by rw [show (2 : Nat) ^ 64 = 16 * 2 ^ 60 by decide]; ring
+    have h4 : 2 ^ (x / 27 + 1) * 2 ^ 59 < 2 ^ (x / 27 + 1) * (b + 1) := by omega
+    have := Nat.lt_of_mul_lt_mul_left h4
+    omega
+  exact powerOfNegativeTen_close_wide num x b _ hn0 hn hx hps hb59
 
 end Qentem.StrToNum
